@@ -27,6 +27,9 @@ ONE = {
     'C05c': 'results_iter rewritten with iter(fetch, None): a target result of None ends the iteration (None means both "stream ended" and "value None")',
     'C18c': 'RemoteContext clean-up removes children from the list it iterates: every second worker of a deleted context survives',
     'C19c': 'autoclose_active_children iterates the active_children() generator twice: the wait/terminate loop never runs',
+    'C07c': 'results of a worker already declared dead are collected again (plain else: instead of the not-closed check): the input is also retried, so its result appears twice',
+    'C09c': 'cleanup_worker only waits for a worker whose id is in _closed: a process whose end run() registered but which has not exited survives close()',
+    'C03c': 'ProcessWorker._run reports success from an else: clause of the try (same slip as C16b, found independently for C03)',
     'C19b': 'active_children() prunes in two critical sections: a registration in between is lost',
 }
 for d in sorted(glob.glob('/verif/seeded/*/')):
